@@ -19,9 +19,10 @@ LEVEL = "exploration"
 RULE = ("Hypothesis-generated tables with 1-12 columns, col_rel_width in [0.2,10] (floats, ints, scalar), col_width "
         "in [2,12] in, both orientations and custom paper; headers default / explicit (inheriting) / explicit "
         "with own widths / multi-row spanning; page_by and subline_by removing 1-3 columns at any position; "
-        "footnote/source as table; 2-4 section documents with different column counts; and a HISTORY "
-        "dimension: the target's RTFBody / RTFColumnHeader objects were first used (constructed + encoded) by a "
-        "document with a different column count. Oracle on parsed \\cellx: every row ends within 1 twip of "
+        "footnote/source as table; 2-4 section documents with different column counts (sections may use page_by / "
+        "subline_by themselves; nested and flat header lists); and a HISTORY "
+        "dimension: the target's RTFBody / RTFColumnHeader / RTFFootnote / RTFSource objects were first used (constructed + encoded) by a "
+        "document with a different column count and table width. Oracle on parsed \\cellx: every row ends within 1 twip of "
         "col_width x 1440; data-row boundaries are W*cum_j/sum within 1 twip (exact rational reference); "
         "inheriting header rows equal the data boundaries cell by cell; own-width header rows are proportional "
         "to their own widths. Non-trivial = >=1 removed column, or a multi-row header, or a reused component.")
@@ -37,13 +38,24 @@ def _with_history(draw):
     rec = draw(gen.table_recipe(replace(CFG, allow_page_by=False, allow_subline_by=False, max_cols=8)))
     # prior document: other column count, uses the SAME body / header objects
     k = draw(st.integers(1, 8))
-    rec["prior"] = {"ncol": k, "share": draw(st.sampled_from([["body"], ["header"], ["body", "header"]])),
+    rec["prior"] = {"ncol": k, "share": draw(st.sampled_from([["body"], ["header"], ["body", "header"], ["footnote", "source"],
+                                                              ["body", "footnote", "source"]])),
                     "encode": draw(st.booleans())}
+    if "footnote" in rec["prior"]["share"]:
+        # table-rendered footnote / source objects that an earlier document (default table width) has used
+        for key, tag in (("footnote", "@F0"), ("source", "@S0")):
+            if rec.get(key) is None and draw(st.booleans()):
+                rec[key] = {"text": [tag]}
+            if rec.get(key) is not None and draw(st.integers(0, 9)) < 7:
+                rec[key]["as_table"] = True
+        rec["prior"]["encode"] = draw(st.integers(0, 9)) < 8
     return rec
 
 
 def strategy(tier):
-    return st.one_of(gen.table_recipe(CFG), gen.table_recipe(CFG), gen.multi_recipe(replace(CFG, max_cols=7)), _with_history())
+    return st.one_of(gen.table_recipe(CFG), gen.table_recipe(CFG), gen.multi_recipe(replace(CFG, max_cols=7)), _with_history(),
+                     # sections that use page_by / subline_by themselves (new pages inside a multi-section document)
+                     gen.multi_recipe(replace(CFG, max_cols=6, multi_grouping=True)))
 
 
 def budget(tier):
@@ -95,6 +107,9 @@ def build_and_encode(case):
         if "header" in prior["share"] and isinstance(kw.get("rtf_column_header"), list) and kw["rtf_column_header"] \
                 and all(h.text is None or len(h.text) == prior["ncol"] or h.col_rel_width is not None for h in kw["rtf_column_header"]):
             pkw["rtf_column_header"] = kw["rtf_column_header"]
+        for key in ("footnote", "source"):
+            if key in prior["share"] and kw.get("rtf_" + key) is not None:
+                pkw["rtf_" + key] = kw["rtf_" + key]
         try:
             pdoc = rtf.RTFDocument(**pkw)
             if prior["encode"]:
